@@ -445,7 +445,7 @@ func (w *Worker) decideTerm(c *Term, tag string) bool {
 	}
 	// beyond the prefix: ask the solver (a cached model of the path condition answers one side for free)
 	if w.ex.stopNow() {
-		w.endPath("abort", "exploration stopped")
+		w.endPath("stopped", "exploration stopped")
 	}
 	nc := w.tt.Not(c)
 	vars := w.nondetVars()
